@@ -120,7 +120,8 @@ def fresh_probe_case(hist, pname):
 def live_probe_case(hist):
     lines, cur = history_lines(hist)
     other = 'B' if cur == 'A' else 'A'
-    return Case(fixture_lines() + lines + ['note probe', 'parse_buf %s %s' % (cur, enc(PROBES['P7-float-first'])), 'dump %s 0' % cur,
+    return Case(fixture_lines() + lines + ['note probe', 'parse_fp %s %s' % (cur, enc(PROBES['P6-error-in-a-stream'])),     # a stream right after whatever the history ended with
+                                           'parse_buf %s %s' % (cur, enc(PROBES['P7-float-first'])), 'dump %s 0' % cur,
                                            'parse_buf %s %s' % (cur, enc(PROBES['P1-plain'])), 'dump %s 0' % cur, 'dump %s 0' % other,
                                            'parse_buf %s %s' % (cur, enc(b'old = 1 i = 8')), 'parse_buf %s %s' % (other, enc(b'old = 1')), 'dump %s 0' % cur,   # the notice about a deprecated option: every time
                                            'parse_buf %s %s' % (other, enc(PROBES['P4-error-with-diagnostics'])), 'dump %s 0' % other,
@@ -227,8 +228,14 @@ def shard(sh):
             kd = max(i for i, l in enumerate(obs['live']) if l.startswith('dump '))
             tail = obs['live'][kd + 1:]
             want = refs[('fresh', 'P5-error-inside-a-single-section')][1:-1] + refs[('fresh', 'P6-error-in-a-stream')][1:-1]
+            kf = next(i for i, l in enumerate(obs['live']) if l.startswith('r parse_fp'))
+            head = obs['live'][:kf + 1]
             if tail != want:
                 st.violation('live-diagnostics-depend-on-history after %s' % hist[-1], obs['live#script'], '\n'.join(want), '\n'.join(tail))
+            elif head != refs[('fresh', 'P6-error-in-a-stream')][1:-1]:
+                # the very first probe, a stream, right after the history: name and line as in a fresh process
+                st.violation('live-diagnostics-depend-on-history:first-probe after %s' % hist[-1], obs['live#script'],
+                             '\n'.join(refs[('fresh', 'P6-error-in-a-stream')][1:-1]), '\n'.join(head))
         st.outcome('\n'.join(obs['live']))
         key = '\n'.join(obs['key'])
         st.nontriv(key)
